@@ -195,7 +195,9 @@ def build_harness():
         bins = {}
         if COVERAGE:
             # development aid (tools/coverage.sh): one instrumented debug build stands for both profiles
-            env = dict(ENV, RUSTFLAGS='-C instrument-coverage', CARGO_TARGET_DIR=TARGET_DIR + '-cov')
+            os.makedirs(os.path.join(CACHE, 'cov', 'raw'), exist_ok=True)
+            env = dict(ENV, RUSTFLAGS='-C instrument-coverage', CARGO_TARGET_DIR=TARGET_DIR + '-cov',
+                       LLVM_PROFILE_FILE=os.path.join(CACHE, 'cov', 'build-%p-%m.profraw'))   # instrumented build scripts / proc macros
             rc, out = sh(['cargo', '+nightly', 'build', '--offline', '-q'], cwd=HARNESS_DIR, timeout=1800, env=env)
             if rc != 0:
                 raise BuildFailure('harness-coverage', out)
